@@ -1301,6 +1301,9 @@ theorem Pres.push_wc {e e' : Engine} (id : Nat) (o : Op) (b : Bool)
     have : e.core.ops.lookup i = some o := ho
     rw [this] at ho'; cases ho'; exact hk
 
+theorem armPingDeadline_core (e : Engine) (o : Op) : (e.armPingDeadline o).core = e.core := by
+  unfold Engine.armPingDeadline; split <;> rfl
+
 theorem startAckTimeout_core (e : Engine) (id : Nat) : (e.startAckTimeout id).core = e.core := by
   unfold Engine.startAckTimeout; split <;> rfl
 
@@ -1338,7 +1341,8 @@ theorem onFullyWritten_pres (e e3 : Engine) (h : e.onFullyWritten = some e3) : P
         (by simp only [Engine.op?, hf.2, hid]; exact ho) rfl rfl rfl rfl
       subst h
       exact ((hf.1.trans hs).trans (Pres.of_core_eq (by
-          show (Engine.startAckTimeout _ id).core = _
+          show (Engine.armPingDeadline (Engine.startAckTimeout _ id) o).core = _
+          rw [armPingDeadline_core]
           exact startAckTimeout_core _ id))) hok
 
 def Seat.eng : Seat → Engine
@@ -1453,26 +1457,33 @@ theorem serviceQueue_pres (e : Engine) (all : Bool) (cap prefill : Nat) : Pres e
   obtain ⟨e1, r⟩ := x
   exact h1.trans (Pres.of_core_eq rfl)
 
+theorem queuePing_pres (e : Engine) : ∀ e2, e.queuePing = some e2 → Pres e e2 := by
+  intro e2 h
+  unfold Engine.queuePing at h
+  split at h
+  · cases h; exact Pres.refl _
+  · have h1 := createOp_internal_pres e .pingreq
+    exact h1.trans (enqueue_pres _ _ _ _ _ h)
+
 theorem serviceKeepAlive_pres (e : Engine) : Pres e e.serviceKeepAlive.1 := by
   unfold Engine.serviceKeepAlive
   split
   · split <;> exact Pres.refl _
   · split
     · split
-      · simp only []
-        have h1 := createOp_internal_pres e .pingreq
-        cases henq : (e.createOp .pingreq none).1.enqueue (e.createOp .pingreq none).2 .high true with
-        | none => exact h1
+      · have hq := queuePing_pres e
+        cases hqp : e.queuePing with
+        | none => exact Pres.refl _
         | some e2 =>
           simp only []
-          have h2 := h1.trans (enqueue_pres _ _ _ _ _ henq)
+          have h2 := hq e2 hqp
           cases hs : e2.settings with
           | none => exact h2
           | some st =>
             simp only []
             split
             · exact h2.trans (Pres.of_core_eq rfl)
-            · exact h2.trans (Pres.of_core_eq rfl)
+            · exact h2
       · exact Pres.refl _
     · exact Pres.refl _
 
